@@ -33,11 +33,11 @@ var ReqFields = []Field{
 	{"method", []string{"GET", "POST", "get", "HEAD"}},
 	{"target", []string{"/", "/chat?x=1"}},
 	{"version", []string{"HTTP/1.1", "HTTP/1.0", "HTTP/1.2", "HTTP/1.10", "HTTP/2.0", "HTTP/0.9", "HTTP/1.;", "HTTP/1", "HTTX/1.1", "HTTP/1.?"}},
-	{"host", []string{"canon", "absent", "lower", "upper", "padded", "dup-same", "triple-same", "dup-conflict"}},
-	{"upgrade", []string{"canon", "absent", "lower", "upper", "padded", "case", "wrong", "dup-same", "triple-same", "dup-conflict"}},
-	{"connection", []string{"canon", "absent", "lower", "upper", "padded", "case", "CASE", "wrong", "dup-same", "triple-same", "dup-conflict", "first", "middle", "last", "nearmiss", "list-without"}},
-	{"wsversion", []string{"canon", "absent", "lower", "upper", "padded", "wrong", "dup-same", "triple-same", "dup-conflict", "empty"}},
-	{"key", []string{"canon", "absent", "lower", "upper", "padded", "23", "25", "nonb64", "dup-same", "triple-same", "dup-conflict"}},
+	{"host", []string{"canon", "absent", "lower", "upper", "mixed", "padded", "dup-same", "triple-same", "dup-conflict"}},
+	{"upgrade", []string{"canon", "absent", "lower", "upper", "mixed", "padded", "case", "wrong", "dup-same", "triple-same", "dup-conflict"}},
+	{"connection", []string{"canon", "absent", "lower", "upper", "mixed", "padded", "case", "CASE", "wrong", "dup-same", "triple-same", "dup-conflict", "first", "middle", "last", "nearmiss", "list-without"}},
+	{"wsversion", []string{"canon", "absent", "lower", "upper", "mixed", "padded", "wrong", "dup-same", "triple-same", "dup-conflict", "empty"}},
+	{"key", []string{"canon", "absent", "lower", "upper", "mixed", "padded", "23", "25", "nonb64", "dup-same", "triple-same", "dup-conflict"}},
 	{"protocol", []string{"absent", "a", "a, b", "b,a", "malformed", "two-headers", "three-headers", "many"}},
 	{"extensions", []string{"absent", "one", "two", "malformed", "pmd", "two-headers", "three-headers", "many"}},
 	{"extra", []string{"none", "before", "between", "after"}},
@@ -137,6 +137,18 @@ func nameCase(canon, variant string) string {
 		return strings.ToLower(canon)
 	case "upper":
 		return strings.ToUpper(canon)
+	case "mixed":
+		// sEC-wEBSOCKET-kEY: lower case where the canonical form has upper case and vice versa
+		b := []byte(canon)
+		for i, c := range b {
+			switch {
+			case 'a' <= c && c <= 'z':
+				b[i] = c - 32
+			case 'A' <= c && c <= 'Z':
+				b[i] = c + 32
+			}
+		}
+		return string(b)
 	}
 	return canon
 }
@@ -146,7 +158,7 @@ func headerLines(canonName, canonValue, variant string, alt map[string]string, c
 	switch variant {
 	case "absent":
 		return nil
-	case "canon", "lower", "upper":
+	case "canon", "lower", "upper", "mixed":
 		return []hline{{nameCase(canonName, variant), canonValue}}
 	case "padded":
 		return []hline{{canonName, " \t" + canonValue + "\t "}}
